@@ -27,6 +27,7 @@ func runC01(c *Ctx) {
 	c.singleSource()
 	c.helperChain()
 	c.boundComputation()
+	c.malformedAnnotationMeansNoSlots()
 	if r := c.ReconcileRoles(); r != nil {
 		c.boundIsHelperResult(r, "C01.2-bound")
 		c.storeClassesAs(r, "C01.2")
@@ -108,6 +109,15 @@ func (c *Ctx) singleSource() {
 						}
 					} else if call, isCall := parents[x].(*ast.CallExpr); isCall && gf.StaticCallee(info, call) == hf {
 						ok = true
+					} else if call, isCall := parents[x].(*ast.CallExpr); isCall {
+						// compared with another slot set, or printed: no ordinal and no bound comes of it
+						if f := gf.StaticCallee(info, call); f != nil && (f.Name() == "Equal" || nilTolerant(f)) {
+							ok = true
+						}
+					} else if sel, isSel := parents[x].(*ast.SelectorExpr); isSel && sel.Sel.Name == "Equal" {
+						if _, isCall := parents[sel].(*ast.CallExpr); isCall {
+							ok = true
+						}
 					}
 					c.Check(ok, "C01.1-slots-only-through-helper", name, x.Pos(), "the annotation's slot set is handed to helper.GetMaxReplicaCountAndDeleteSlots",
 						"the raw delete-slots set is used without passing through the helper")
@@ -403,4 +413,53 @@ func assignedFirst(fi *load.FuncInfo, info *types.Info, obj types.Object) ast.Ex
 		return true
 	})
 	return rhs
+}
+
+// malformedAnnotationMeansNoSlots: "for every value of the delete-slots annotation": a value that does not decode gives
+// no slots at all. The decoder leaves what it has decoded so far (and zeros for the elements it could not) in the
+// target, so nothing is taken from the target once the decoder has reported an error.
+func (c *Ctx) malformedAnnotationMeansNoSlots() {
+	const rule = "C01.1-malformed-annotation-means-no-slots"
+	fi := c.Func(load.HelperPkg, "GetDeleteSlots")
+	if fi == nil {
+		return
+	}
+	fn, an := c.Analysis(fi)
+	info := fi.Pkg.TypesInfo
+	n := 0
+	for _, bd := range fn.Bodies() {
+		for _, call := range callsIn(bd, false) {
+			f := gf.StaticCallee(info, call)
+			if f == nil || f.FullName() != "encoding/json.Unmarshal" || len(call.Args) != 2 {
+				continue
+			}
+			n++
+			name := "GetDeleteSlots: " + types.ExprString(call)
+			target := rootIdent(stripAddr(call.Args[1]))
+			stmt := stmtOf(bd, call)
+			errF := c.errNonNilAfter(fn, stmt, call)
+			if target == nil || stmt == nil || errF == nil {
+				c.Bad(rule, name, call.Pos(), "the decoder's error is not bound to a variable, or its target is not a variable: a failed decode cannot be told from a good one")
+				continue
+			}
+			aE := fn.FromAfter(stmt, an.StateAfter(stmt).Assume(errF))
+			if ifs, ok := stmt.(*ast.IfStmt); ok && ifs.Init != nil {
+				aE = fn.FromAfter(ifs.Init, an.StateAfter(ifs.Init).Assume(errF))
+			}
+			bad := ""
+			ast.Inspect(bd, func(x ast.Node) bool {
+				id, ok := x.(*ast.Ident)
+				if !ok || info.Uses[id] != info.ObjectOf(target) || id.Pos() <= call.End() {
+					return true
+				}
+				if aE.StateAtExpr(id).Reachable() && bad == "" {
+					bad = c.P.Pos(id.Pos())
+				}
+				return true
+			})
+			c.Check(bad == "", rule, name, call.Pos(), "the decoded slice is not read on the decoder's error path",
+				"the decoded slice is read at "+bad+" although the decoder reported an error: a value such as [1, \"2\"] or [4294967296] then yields slots {0, 1} or {0} instead of none, and every helper and the controller aim for the wrong ordinals")
+		}
+	}
+	c.Floor(rule+"-decode-sites", n, 1)
 }
